@@ -126,6 +126,8 @@ structure St where
   lastRes : String := "ok"      -- the model's result token of the last op
   lastReg : Nat := 0
   pending : Option (Option Nat × Addr) := none   -- built reference and source of the decode awaiting its `res`
+  mutExpect : Option String := none              -- what the owner's own mutation must answer, judged from the last snapshot
+  parses : List (Bytes × String) := []           -- first observation of `_cached_header_parse` per datagram
   implRl : Bytes := []
   corrOk : Bool := true
   judgeOk : Bool := true
@@ -155,7 +157,7 @@ def stepDecode (st : St) (kind r dat src loc now : String) (rest : List String) 
       match r.toNat?, tokB dat, parseAddr src, parseOptAddr loc, now.toInt? with
       | some r, some dat, some src, some loc, some now =>
         let gateOk := kind = "dec" || isValidPacket Gen.C01Ssdp.ssdpPrefixes dat
-        let st := { st with pending := some (parseBuiltRef rest, src) }
+        let st := { st with pending := some (parseBuiltRef rest, src), mutExpect := none }
         if !gateOk then { st with lastRes := "drop", lastReg := r }
         else
           let (res, lru) := decodeCached st dat loc src now
@@ -167,6 +169,25 @@ def stepDecode (st : St) (kind r dat src loc now : String) (rest : List String) 
           | .error e =>
             { st with lastRes := if kind = "recv" ∧ caught e then "drop" else "EXC:" ++ exnTok e }
       | _, _, _, _, _ => corrFail st s!"bad {kind} line"
+
+/-- what `del r[k]` / `r.del_lower(lk)` must answer, judged from the implementation's last
+    observation of that result: KeyError exactly when the name is not there -/
+def delExpect (st : St) (r : Nat) (present : Obs → Bool) : Option String :=
+  if st.dirty.getD r false then none
+  else (st.snaps.getD r none).map fun o => if present o then "ok" else "KeyError"
+
+/-- `_cached_decode_ssdp_packet(data, addr_without_port)` observed directly (never mutated by the harness) -/
+def stepCore (st : St) (r dat src : String) : St :=
+  match r.toNat?, tokB dat, parseAddr src with
+  | some r, some dat, some src =>
+    let st := { st with pending := none, mutExpect := none, lastReg := r }
+    match decodeCore dat (withoutPort src) with
+    | .ok (rl, h) =>
+      { st with regs := st.regs.set! r (some (rl, h)), lastRes := "ok " ++ fmtB rl,
+                fresh := st.fresh.set! r (some { data := dat, src := withoutPort src,
+                                                 loc := some { host := ofString "core", port := 0 }, built := none, rl := [] }) }
+    | .error e => { st with lastRes := "EXC:" ++ exnTok e }
+  | _, _, _ => corrFail st "bad core line"
 
 def stepOp (st : St) (toks : List String) : St :=
   match toks with
@@ -186,9 +207,36 @@ def stepOp (st : St) (toks : List String) : St :=
     | _, _, _, _ => corrFail st "bad srch line"
   | "dec" :: r :: dat :: src :: loc :: now :: rest => stepDecode st "dec" r dat src loc now rest
   | "recv" :: r :: dat :: src :: loc :: now :: rest => stepDecode st "recv" r dat src loc now rest
+  | ["core", r, dat, src] => stepCore st r dat src
+  | ["hpo", dat, udn, ps] =>
+    -- `_cached_header_parse(data)`: parsed pairs and udn, compared with the model and with the first observation
+    match tokB dat, parseList (parseKV tokB) ps with
+    | some dat, some pairs =>
+      let udnO : Option Bytes := if udn = "!" then none else tokB udn
+      let st := match headerParse dat with
+        | .ok (mp, _, mu) => if mp == pairs && mu == udnO then st else corrFail st s!"header-parse impl[{ps} {udn}] model differs"
+        | .error _ => corrFail st "header-parse: model raises"
+      let key := ps ++ " " ++ udn
+      match st.parses.find? (fun (e : Bytes × String) => e.1 == dat) with
+      | some (_, k0) => if k0 = key then st else judgeFail st s!"cached-parse-changed first[{k0}] now[{key}]"
+      | none => { st with parses := (dat, key) :: st.parses }
+    | _, _ => corrFail st "bad hpo line"
+  | ["dell", r, lk] =>
+    match r.toNat?, tokB lk with
+    | some r, some lk =>
+      let st := { st with pending := none, lastReg := r,
+                          mutExpect := delExpect st r (fun o => o.cmap.any fun p => p.1 == lk) }
+      match st.regs.getD r none with
+      | some (rl, h) =>
+        match CIDict.delLower h lk with
+        | some h' => { st with regs := st.regs.set! r (some (rl, h')), lastRes := "ok", dirty := st.dirty.set! r true }
+        | none => { st with lastRes := "KeyError" }
+      | none => corrFail st "dell on empty register"
+    | _, _ => corrFail st "bad dell line"
   | ["set", r, k, v] =>
     match r.toNat?, tokB k, parseVal v with
     | some r, some k, some v =>
+      let st := { st with pending := none, lastReg := r, mutExpect := some "ok" }
       match st.regs.getD r none with
       | some (rl, h) => { st with regs := st.regs.set! r (some (rl, CIDict.setitem lower h k v)), lastRes := "ok", dirty := st.dirty.set! r true }
       | none => corrFail st "set on empty register"
@@ -196,6 +244,8 @@ def stepOp (st : St) (toks : List String) : St :=
   | ["del", r, k] =>
     match r.toNat?, tokB k with
     | some r, some k =>
+      let st := { st with pending := none, lastReg := r,
+                          mutExpect := delExpect st r (fun o => o.iter.any fun n => lower n == lower k) }
       match st.regs.getD r none with
       | some (rl, h) =>
         match CIDict.delitem lower h k with
@@ -206,6 +256,7 @@ def stepOp (st : St) (toks : List String) : St :=
   | ["repl", r, ps] =>
     match r.toNat?, parseList (parseKV parseVal) ps with
     | some r, some l =>
+      let st := { st with pending := none, lastReg := r, mutExpect := some "ok" }
       match st.regs.getD r none with
       | some (rl, h) => { st with regs := st.regs.set! r (some (rl, CIDict.replaceDict lower h (PyDict.ofList l))), lastRes := "ok", dirty := st.dirty.set! r true }
       | none => corrFail st "repl on empty register"
@@ -213,6 +264,11 @@ def stepOp (st : St) (toks : List String) : St :=
   | "res" :: rest =>
     let t := " ".intercalate rest
     let st := if t = st.lastRes then st else corrFail st s!"res impl={t} model={st.lastRes}"
+    -- the owner's own mutation of a result must behave as on a map nobody else touches
+    let st := match st.mutExpect with
+      | some e => if t = e then { st with mutExpect := none }
+                  else judgeFail { st with mutExpect := none } s!"own-mutation-misbehaves r{st.lastReg} answered={t} expected={e}"
+      | none => st
     -- judge bookkeeping: a decode that did not produce a result leaves nothing fresh
     match rest with
     | ["ok", rl] =>
